@@ -158,6 +158,7 @@ def main(pid, tier='quick', seed=0, replay=None, nworkers=None,
   cross_viol = collections.Counter()
   cross_examples = []
   harness_notes = []
+  all_notes = []
   for spec, r in zip(specs, results):
     if r is None:
       lost += 1
@@ -181,6 +182,9 @@ def main(pid, tier='quick', seed=0, replay=None, nworkers=None,
     held.update(j['held'])
     inconc.update(j['inconclusive'])
     counters.update(j['counters'])
+    for n_ in j['notes']:
+      if len(all_notes) < 12:
+        all_notes.append(n_)
     if j['counters'].get('harness_errors'):
       harness_notes.extend(n_ for n_ in j['notes'] if 'HARNESS' in n_)
     keys.update(j['keys'])
@@ -257,6 +261,7 @@ def main(pid, tier='quick', seed=0, replay=None, nworkers=None,
       'status': status,
       'workers': max(1, min(nworkers or NCPU, len(specs))),
       'repo_head': __import__('mlverif.repo', fromlist=['x']).head(),
+      'notes': all_notes,
       'harness_errors': errors[:5],
       'harness_notes': harness_notes[:5],
       'dead_workers': dead,
